@@ -37,21 +37,33 @@ func peek(r io.Reader, n int) ([]byte, io.Reader, error) {
 		return buf[:k], r, nil
 	}
 
-	k, err := io.ReadFull(r, buf)
-	if err != nil && err != io.ErrUnexpectedEOF && err != io.EOF {
+	// Don't use io.ReadFull here: it drops an error which the reader
+	// returns together with the last requested byte.
+	var k int
+	var err error
+	for k < n && err == nil {
+		var m int
+		m, err = r.Read(buf[k:])
+		k += m
+	}
+	if err != nil && err != io.EOF && k < n {
 		return nil, nil, err
 	}
 
-	return buf[:k], &peekReader{r: r, buf: buf[:k]}, nil
+	return buf[:k], &peekReader{r: r, buf: buf[:k], err: err}, nil
 }
 
 type peekReader struct {
 	r   io.Reader
 	buf []byte
+	err error // error which arrived together with the peeked bytes
 }
 
 func (r *peekReader) Read(b []byte) (n int, err error) {
 	if len(r.buf) == 0 {
+		if r.err != nil {
+			return 0, r.err
+		}
 		return r.r.Read(b)
 	}
 	k := len(b)
